@@ -18,9 +18,9 @@ SEQ_CFGS = ["MCLazyPool_seq_nolimit.cfg", "MCLazyPool_seq_max0.cfg", "MCLazyPool
             "MCLazyPool_seq_halve.cfg", "MCLazyPool_seq_zero_max2.cfg", "MCLazyPool_seq_neg.cfg"]
 
 TIERS = {
-    "C13": {"quick": dict(runs=[dict(fam="acc", iters=500, shards=6)], mc=[("MCLazy", "MCLazy_quick.cfg")],
+    "C13": {"quick": dict(runs=[dict(fam="acc", iters=500, shards=6), dict(fam="pool", iters=30, hist=2, shards=4)], mc=[("MCLazy", "MCLazy_quick.cfg")],
                           defs=["MCLazyDef_quick.cfg", "MCLazyDef_quick2.cfg"]),
-            "thorough": dict(runs=[dict(fam="acc", iters=12000, shards=16)], mc=[("MCLazy", "MCLazy_thorough.cfg")],
+            "thorough": dict(runs=[dict(fam="acc", iters=12000, shards=16), dict(fam="pool", iters=60, hist=10, shards=8)], mc=[("MCLazy", "MCLazy_thorough.cfg")],
                              defs=["MCLazyDef_quick.cfg", "MCLazyDef_quick2.cfg", "MCLazyDef_thorough.cfg"])},
     "C14": {"quick": dict(runs=[dict(fam="pool", iters=120, hist=60, shards=4)],
                           mc=[("MCLazyPool", "MCLazyPool_seq_max1.cfg"), ("MCLazyPool", "MCLazyPool_seq_zero_max2.cfg")],
